@@ -803,6 +803,143 @@ fn big_kquery_case(n: usize, order: &str, hint: usize, rng: &mut Rng, rep: &mut 
     Ok(())
 }
 
+/// C04 / C05 (lookup, delete by key on deep paths) and C17 (handles held across insertions) on
+/// large map / set trees. Keys are 4k+1, so gap keys 4k+3 can be inserted later next to any entry.
+fn big_lookup_held_case(coll: &str, n: usize, order: &str, hint: usize, rng: &mut Rng, rep: &mut Report, held: bool) -> Result<(), Fail> {
+    let keys = order_keys(n, order, rng);
+    let sorted: Vec<i32> = (0..n as i32).collect();
+    let probes = big_probes(n, &sorted, rng);
+    let is_map = coll == "maptree";
+    let mut mt = MapTree::<MKey, MVal>::new(hint);
+    let mut st = SetTree::<SKey, SVal>::new(hint);
+    for (i, &k) in keys.iter().enumerate() {
+        ctx::set(n as u64, i as u64);
+        if is_map {
+            mt.insert(MKey(4 * k + 1), MVal::new(4 * k + 1, k as u64 + 1));
+        } else {
+            st.insert(SVal::new(4 * k + 1, k as u64 + 1));
+        }
+    }
+    let get = |mt: &MapTree<MKey, MVal>, st: &SetTree<SKey, SVal>, key: i32| -> Option<(i32, u64, bool)> {
+        if is_map {
+            mt.get_value(MKey(key)).map(|v| (v.key_copy, v.id, v.pay.intact()))
+        } else {
+            st.get_value(&SKey(key)).map(|v| (v.key.0, v.id, v.pay.intact()))
+        }
+    };
+    let mut removed: std::collections::HashSet<i32> = std::collections::HashSet::new();
+    let mut added: std::collections::HashSet<i32> = std::collections::HashSet::new();
+    let check_all = |mt: &MapTree<MKey, MVal>, st: &SetTree<SKey, SVal>, removed: &std::collections::HashSet<i32>, added: &std::collections::HashSet<i32>, rep: &mut Report, what: &str| -> Result<(), Fail> {
+        for &p in &probes {
+            for key in [4 * p + 1, 4 * p + 3, 4 * p] {
+                let k = key.div_euclid(4);
+                let want = if key.rem_euclid(4) == 1 && p >= 0 && (p as usize) < n && !removed.contains(&key) {
+                    Some((key, k as u64 + 1))
+                } else if added.contains(&key) {
+                    Some((key, key as u64))
+                } else {
+                    None
+                };
+                let got = get(mt, st, key);
+                rep.evaluations += 1;
+                rep.counters.inc("big_lookups");
+                let ok = match (got, want) {
+                    (None, None) => true,
+                    (Some(g), Some(w)) => g.0 == w.0 && g.1 == w.1 && g.2,
+                    _ => false,
+                };
+                if !ok {
+                    let class = if want.is_some() && got.is_none() { "missing" } else if want.is_none() { "present-but-deleted-or-never-inserted" } else { "wrong-value" };
+                    return Err(Fail::new(format!("{}:{}", what, class), format!("n={} get_value({}) returned {:?}, reference {:?}", n, key, got, want)));
+                }
+            }
+        }
+        Ok(())
+    };
+    check_all(&mt, &st, &removed, &added, rep, "get")?;
+    if held {
+        // handles for the entries at both ends and a random sample, then insertions right next to them
+        let mut handles: Vec<(i32, u32)> = Vec::new();
+        for &p in probes.iter().filter(|&&p| p >= 0 && (p as usize) < n).take(1200) {
+            let key = 4 * p + 1;
+            let h = if is_map { mt.first_index_less(MKey(key)) } else { st.first_index_less(&SKey(key)) };
+            if h == i_tree::EMPTY_REF {
+                return Err(Fail::new("first_index_less:sentinel-instead-of-handle", format!("n={} no handle for stored key {}", n, key)));
+            }
+            handles.push((key, h));
+        }
+        rep.counters.add("handles_taken", handles.len() as u64);
+        for (i, &p) in probes.iter().enumerate() {
+            if p < -1 || p as i64 > n as i64 {
+                continue;
+            }
+            let key = 4 * p + 3;
+            if added.insert(key) {
+                if is_map {
+                    mt.insert(MKey(key), MVal::new(key, key as u64));
+                } else {
+                    st.insert(SVal::new(key, key as u64));
+                }
+            }
+            if i % 64 == 63 || i + 1 == probes.len() {
+                for &(k, h) in &handles {
+                    rep.evaluations += 1;
+                    rep.counters.inc("held_handles_rechecked");
+                    let (gk, gid) = if is_map {
+                        let v = mt.value_by_index(h);
+                        (v.key_copy, v.id)
+                    } else {
+                        let v = st.value_by_index(h);
+                        (v.key.0, v.id)
+                    };
+                    let h2 = if is_map { mt.first_index_less(MKey(k)) } else { st.first_index_less(&SKey(k)) };
+                    if gk != k || gid != (k / 4) as u64 + 1 {
+                        return Err(Fail::new("held-handle:designates-other-entry", format!("n={} handle {} taken for key {} now designates key {} id {}", n, h, k, gk, gid)));
+                    }
+                    if h2 != h {
+                        return Err(Fail::new("held-handle:key-moved", format!("n={} key {} was behind handle {}, first_index_less now returns {}", n, k, h, h2 as i32)));
+                    }
+                }
+            }
+        }
+        check_all(&mt, &st, &removed, &added, rep, "get-after-insert")?;
+        return Ok(());
+    }
+    // delete by key along the deepest paths and at random, with absent keys in between
+    for (i, &p) in probes.iter().enumerate() {
+        if p < 0 || p as usize >= n || i % 3 == 2 {
+            // absent key: must change nothing
+            let key = 4 * p + 2;
+            if is_map {
+                mt.delete(MKey(key));
+            } else {
+                st.delete(&SKey(key));
+            }
+            continue;
+        }
+        let key = 4 * p + 1;
+        removed.insert(key);
+        if is_map {
+            mt.delete(MKey(key));
+        } else {
+            st.delete(&SKey(key));
+        }
+        rep.counters.inc("op_delete_present");
+    }
+    check_all(&mt, &st, &removed, &added, rep, "get-after-delete")?;
+    let s_ok = if is_map { snap::check_structure(&mt.verif_snapshot(|k, _| k.0), |p| *p as i64).map(|i| i.n) } else { snap::check_structure(&st.verif_snapshot(|v| v.key.0), |p| *p as i64).map(|i| i.n) };
+    match s_ok {
+        Ok(cnt) => {
+            let want = n - removed.len();
+            if cnt != want {
+                return Err(Fail::new("get-after-delete:count", format!("n={}: {} entries linked after the deletions, reference {}", n, cnt, want)));
+            }
+        }
+        Err(_) => {} // structure is C02's business
+    }
+    Ok(())
+}
+
 /// C11 / C12 on large trees: clear() of a tall tree must release every slot, a cleared tree must
 /// behave like a fresh one, and fill / clear cycles must not grow the arena
 fn big_clear_case(coll: &str, n: usize, order: &str, hint: usize, rng: &mut Rng, rep: &mut Report) -> Result<(), Fail> {
@@ -928,6 +1065,9 @@ pub fn big_case_with(coll: &str, n: usize, order: &str, hint: usize, seed: u64, 
     }
     if probes == "kquery" {
         return big_kquery_case(n, order, hint, &mut rng, rep);
+    }
+    if probes == "lookup" || probes == "held" {
+        return big_lookup_held_case(coll, n, order, hint, &mut rng, rep, probes == "held");
     }
     let keys = order_keys(n, order, &mut rng);
     let mut del = keys.clone();
@@ -1108,6 +1248,14 @@ pub fn suite_big(cfg: &Cfg, rep: &mut Report) {
                 }
                 if probes == "kquery" && coll != "keytree" {
                     continue;
+                }
+                if (probes == "lookup" || probes == "held") && coll == "keytree" {
+                    continue;
+                }
+                if let Some(only) = cfg.get("only_coll") {
+                    if only != coll {
+                        continue;
+                    }
                 }
                 let line = format!("#big coll={} n={} order={} hint={} seed={} probes={}", coll, n, order, hint, cfg.seed, probes);
                 if cfg.emit {
